@@ -78,7 +78,7 @@ def place_str(pl):
 class Body:
     __slots__ = ("rec", "path", "crate", "kind", "file", "line", "blocks", "locals", "names",
                  "_succ", "_pred", "_dom", "_pdom", "_defs", "root", "self_ty", "trait",
-                 "derived", "expn", "argc", "_reach", "_borrowed")
+                 "derived", "expn", "argc", "_reach", "_borrowed", "_mutb")
 
     def __init__(self, rec, crate):
         self.rec = rec
@@ -98,6 +98,34 @@ class Body:
         self.argc = rec["argc"]
         self._succ = self._pred = self._dom = self._pdom = self._defs = self._reach = None
         self._borrowed = None
+        self._mutb = None
+        self._normalise_checked_arith()
+
+    def _normalise_checked_arith(self):
+        """debug-assertion builds lower `x = a + b` to `t = AddWithOverflow(a, b); assert(!t.1); x = move t.0`.
+        Rewrite the final move into `x = Add(a, b)` so that rules see the same arithmetic in every configuration."""
+        for b in self.blocks:
+            t = b["t"]
+            if t["k"] != "assert" or t.get("msg") != "Overflow":
+                continue
+            cp = op_place(t["cond"])
+            if cp is None or isinstance(cp, int):
+                continue
+            tmp = cp["l"]
+            src = None
+            for s in b["s"]:
+                if s.get("lhs") == tmp and s["rv"]["k"] == "bin" and s["rv"]["op"].endswith("WithOverflow"):
+                    src = s["rv"]
+            if src is None:
+                continue
+            tb = self.blocks[t["to"]]
+            for s in tb["s"]:
+                rv = s.get("rv")
+                if rv and rv["k"] == "use":
+                    p = op_place(rv["a"])
+                    if p is not None and not isinstance(p, int) and p["l"] == tmp and p["p"] and p["p"][0].startswith("t|0"):
+                        s["rv"] = {"k": "bin", "op": src["op"].replace("WithOverflow", ""), "a": src["a"], "b": src["b"]}
+                        break
 
     # ---- naming -------------------------------------------------------
     def local_name(self, l):
